@@ -13,7 +13,8 @@ CHECKS = {
                 "x 3 configured default lifetimes on the real turn.Server in virtual time; after every event the response, "
                 "Server.AllocationCount and a full probe sweep are compared with the reference model; then a drain through every "
                 "remaining deadline. A class is (event class => response); a state is the canonical model key.",
-        "parts": [A("vtx", "./checks/c06", "TestC06", budget={"quick": 60, "thorough": 1500})],
+        "parts": [A("vtx", "./checks/c06", "TestC06", budget={"quick": 60, "thorough": 1500}),
+              A("bfs", "./checks/c06", "TestC06BFS", tiers=["thorough"], budget={"thorough": 1500})],
     },
 }
 
@@ -24,7 +25,8 @@ CHECKS["C07"] = {
             "configurations on the real turn.Server in virtual time; after every event the response and a probe sweep in both directions "
             "(3 peers incl. same-IP-other-port, 2 channel numbers) are compared with the reference model whose entries live exactly one timeout "
             "past the last successful install/refresh; then a drain through every remaining deadline at -1ns/+1ns.",
-    "parts": [A("vtx", "./checks/c07", "TestC07", budget={"quick": 90, "thorough": 1500})],
+    "parts": [A("vtx", "./checks/c07", "TestC07", budget={"quick": 90, "thorough": 1500}),
+              A("bfs", "./checks/c07", "TestC07BFS", tiers=["thorough"], budget={"thorough": 1500})],
 }
 
 SWEEP = ("after every event the response, Server.AllocationCount and a probe sweep (one Send indication per client x peer, one ChannelData per "
@@ -38,6 +40,7 @@ CHECKS["C01"] = {
             "C01 judges: datagrams arriving at peers that the model does not authorise (wrong source included) and permissions/bindings accepted against policy or address family. "
             "Part connect: two TCP allocations on a stream listener x policies {deny-B, deny-all, allow}, depth 3/4 over Connect A/B, CreatePermission, inbound peer connections, ConnectionBind, Refresh0: a refused Connect target is answered with an error and never dialled.",
     "parts": [A("vtx", "./checks/c01", "TestC01", budget={"quick": 90, "thorough": 1500}),
+              A("bfs", "./checks/c01", "TestC01BFS", tiers=["thorough"], budget={"thorough": 1500}),
               A("connect", "./checks/c01", "TestC01Connect", budget={"quick": 60, "thorough": 900})],
 }
 CHECKS["C02"] = {
@@ -45,6 +48,7 @@ CHECKS["C02"] = {
     "rule": "Engine A: same state space as C01 (two clients, peers A, A' (same IP other port), B (other IP same port), V6; three policies; timeout configurations); " + SWEEP +
             "C02 judges: anything a client receives because of a peer datagram that the model does not authorise (unpermitted sender, wrong client, wrong encapsulation/attribution).",
     "parts": [A("vtx", "./checks/c02", "TestC02", budget={"quick": 90, "thorough": 1500}),
+              A("bfs", "./checks/c02", "TestC02BFS", tiers=["thorough"], budget={"thorough": 1500}),
               A("sched", "./checks/bsem", "TestC02Sched", overlay=True, gomaxprocs=1, budget={"quick": 90, "thorough": 1500})],
 }
 CHECKS["C04"] = {
@@ -65,6 +69,7 @@ CHECKS["C08"] = {
             "second client binds, clock advances around expiry; " + SWEEP + "Plus: all 65536 channel numbers bound on a fresh allocation, each followed by a sweep. "
             "Model: accepted iff number in [0x4000,0x7FFF]; conflicts get 400 and change nothing; identical re-bind refreshes.",
     "parts": [A("vtx", "./checks/c08", "TestC08", budget={"quick": 90, "thorough": 1500}),
+              A("bfs", "./checks/c08", "TestC08BFS", tiers=["thorough"], budget={"thorough": 1500}),
               A("all-numbers", "./checks/c08", "TestC08AllNumbers", budget={"quick": 60, "thorough": 300})],
 }
 
